@@ -17,7 +17,8 @@ NUMBA_DISABLE_JIT=1, ~2 ms per call, used for the large case counts and the exha
 Search / oracle (written from the property statement, independent of the model): brute-force nearest target
 in exact rational arithmetic, zero iff target, recorded target is real and is the one all three outputs refer
 to, never below the true nearest distance, never above max_distance, NaN in one output iff in all, no NaN when
-unbounded with >= 1 target, exact for a single target and on grids with H,W <= 3.
+unbounded with >= 1 target, exact for a single target and on grids with H,W <= 3.  35 % of the rasters carry affinely
+re-scaled coordinates (offsets up to 1e7, cells 1e-6 .. 1e4: `gen_affine`); the oracle works on the float coordinates as given.
 """
 import itertools
 import json
@@ -105,13 +106,59 @@ def coords(n, step_units, u, desc, off):
     return vals[::-1] if desc else vals
 
 
+AFFINE_CLASSES = ["projected", "projected", "geographic", "far", "fine", "dyadic"]
+DECIMALS = [0.0, 0.0, 0.5, 0.25, 0.37, 0.1, 1 / 3]
+
+
+def gen_affine(rng):
+    """an affine re-scaling of the coordinates: x_i = x0 + i * step_x * u, y_j = y0 + j * step_y * u (ascending or descending,
+    step_x / step_y the integer cell shape of the case) -- the magnitude / scale classes real rasters come in:
+      projected   metric grids far from the origin (UTM-like eastings 1.7e5..8.3e5, northings 1e6..9.9e6; cells 0.5 m .. 10 km)
+      geographic  degrees (lon -180..180, lat -89..89) with cells of 1e-6 .. 1e-2 degrees
+      far         offsets up to +-1e7 with cells 1e-2 .. 1e4
+      fine        offsets within +-10 with cells 1e-6 .. 1e-3
+      dyadic      cell = 2^e (e = -20..13), offsets integer multiples of the cell up to 1e7: every coordinate, difference and
+                  squared distance is exact in float64, so the model comparison applies as on the unscaled grids (`exact`)
+    The offset / cell ratio stays below 1e9: neighbouring coordinates are distinct float64 values and their differences carry
+    a relative error below 1e-7 (the oracle works on the float coordinates as given, in rational arithmetic)."""
+    cls = rng.choice(AFFINE_CLASSES)
+    if cls == "projected":
+        u = rng.choice([0.5, 1.0, 2.0, 2.0, 5.0, 10.0, 10.0, 25.0, 30.0, 100.0, 1000.0, 1e4])
+        x0 = rng.randrange(170000, 830000) + rng.choice(DECIMALS)
+        y0 = rng.randrange(1000000, 9900000) + rng.choice(DECIMALS)
+    elif cls == "geographic":
+        u = rng.choice([1e-6, 1e-6, 1e-5, 1e-4, 1e-3, 1e-2])
+        x0 = round(rng.uniform(-179.0, 179.0), rng.choice([0, 2, 5]))
+        y0 = round(rng.uniform(-89.0, 89.0), rng.choice([0, 2, 5]))
+    elif cls == "far":
+        u = rng.choice([1e-2, 0.1, 0.3, 1.0, 7.0, 10.0, 1e3, 1e4])
+        x0 = rng.choice([-1, 1]) * (rng.randrange(10 ** 6, 10 ** 7) + rng.choice(DECIMALS))
+        y0 = rng.choice([-1, 1]) * (rng.randrange(10 ** 6, 10 ** 7) + rng.choice(DECIMALS))
+    elif cls == "fine":
+        u = rng.choice([1e-6, 1e-5, 1e-4, 1e-3])
+        x0 = rng.randrange(-10, 11) + rng.choice(DECIMALS)
+        y0 = rng.randrange(-10, 11) + rng.choice(DECIMALS)
+    else:
+        u = 2.0 ** rng.randrange(-20, 14)
+        top = int(min(1e7 / u, 2.0 ** 40))
+        x0 = rng.randrange(-top, top + 1) * u
+        y0 = rng.randrange(-top, top + 1) * u
+    return dict(cls=cls, x0=x0, y0=y0, u=u, exact=(cls == "dyadic"))
+
+
+def affine_coords(n, step_units, u, desc, x0):
+    vals = [x0 + (i * step_units) * u for i in range(n)]
+    return vals[::-1] if desc else vals
+
+
 def gen_case(rng, hmax=12, metric=None, small=False):
     H = rng.choice([1, 2, 3, 4]) if (small or rng.random() < 0.15) else rng.randrange(2, hmax + 1)
     W = rng.choice([1, 2, 3, 4]) if (small or rng.random() < 0.15) else rng.randrange(2, hmax + 1)
     n = H * W
+    affine = gen_affine(rng) if rng.random() < 0.35 else None
     dens = rng.choice([0.01, 0.02, 0.03, 0.05, 0.05, 0.1, 0.1, 0.2, 0.3, 0.6])
     ntg = min(n, max(0 if rng.random() < 0.06 else 1, int(round(dens * n)) + (1 if rng.random() < 0.4 else 0)))
-    if rng.random() < 0.12:
+    if rng.random() < (0.3 if affine else 0.12):
         ntg = 1
     cellsidx = list(range(n))
     rng.shuffle(cellsidx)
@@ -189,6 +236,10 @@ def gen_case(rng, hmax=12, metric=None, small=False):
         sx, sy = rng.choice(SMALL_CELLS)
     xs = coords(W, sx, u, rng.random() < 0.3, rng.randrange(-6, 7))
     ys = coords(H, sy, u, rng.random() < 0.5, rng.randrange(-6, 7))
+    if affine:
+        u = affine["u"]
+        xs = affine_coords(W, sx, u, rng.random() < 0.3, affine["x0"])
+        ys = affine_coords(H, sy, u, rng.random() < 0.5, affine["y0"])
     metric = metric or rng.choice(["EUCLIDEAN", "EUCLIDEAN", "MANHATTAN"])
     mname = metric
     if rng.random() < 0.04:
@@ -200,13 +251,14 @@ def gen_case(rng, hmax=12, metric=None, small=False):
     return dict(H=H, W=W, vals=[vt[i * W:(i + 1) * W] for i in range(H)], dtype=dtype, tv=tvt,
                 xs=[tok(x) for x in xs], ys=[tok(y) for y in ys], sx=sx, sy=sy, u=u,
                 metric=mname, metric_model={"EUCLIDEAN": "e", "MANHATTAN": "m"}[metric],
-                max=dict(kind=kind, k=k), mag=mag,
+                max=dict(kind=kind, k=k), mag=mag, **({"affine": affine} if affine else {}),
                 tv_int=bool(explicit and mag != "extreme" and scale == 1 and dtype != "float32" and rng.random() < 0.5
                             and all(t not in ("nan", "inf", "-inf") for t in tvt)))
 
 
 def gen_gc_case(rng):
-    """great-circle: lon/lat coordinates; oracle only (soundness)"""
+    """great-circle: lon/lat coordinates; oracle only (soundness).  Cell sizes from 10 degrees down to 1e-6 degrees (a
+    decimetre), base longitudes / latitudes anywhere on the globe (decimal, not grid aligned), max_distance a few cells"""
     H, W = rng.randrange(1, 9), rng.randrange(1, 9)
     n = H * W
     ntg = max(1, int(n * rng.choice([0.05, 0.1, 0.3])))
@@ -216,21 +268,33 @@ def gen_gc_case(rng):
     pool = list(range(1, n + 1))
     rng.shuffle(pool)
     vt = [tok(pool[i]) if i in tcells else "0" for i in range(n)]
-    dx = rng.choice([0.5, 1.0, 2.0, 5.0, 10.0])
-    dy = rng.choice([0.5, 1.0, 2.0, 5.0, 10.0])
-    x0 = rng.choice([-170.0, -40.0, 0.0, 10.0, 90.0])
-    y0 = rng.choice([-80.0, -30.0, 0.0, 5.0])
+    fine = rng.random() < 0.4
+    if fine:
+        dx = rng.choice([1e-6, 1e-5, 1e-4, 1e-3, 1e-2, 0.1])
+        dy = dx * rng.choice([1, 1, 1, 2, 0.5])
+        x0 = round(rng.uniform(-179.0, 179.0 - 10 * dx), rng.choice([0, 2, 5]))
+        y0 = round(rng.uniform(-89.0, 89.0 - 10 * dy), rng.choice([0, 2, 5]))
+    else:
+        dx = rng.choice([0.5, 1.0, 2.0, 5.0, 10.0])
+        dy = rng.choice([0.5, 1.0, 2.0, 5.0, 10.0])
+        x0 = rng.choice([-170.0, -40.0, 0.0, 10.0, 90.0])
+        y0 = rng.choice([-80.0, -30.0, 0.0, 5.0])
     xs = [x0 + i * dx for i in range(W)]
     ys = [y0 + i * dy for i in range(H)]
     if rng.random() < 0.5:
         ys = ys[::-1]
+    if fine and rng.random() < 0.3:
+        xs = xs[::-1]
+    cell_m = 111319.5 * max(dx, dy)
     if rng.random() < 0.5:
         mx = dict(kind="inf")
+    elif fine:
+        mx = dict(kind="raw", k=cell_m * rng.choice([0.7, 1.6, 3.3, 8.2]))
     else:
         mx = dict(kind="raw", k=rng.choice([5e4, 1.1e5, 2.5e5, 6e5, 1.5e6, 4e6]))
     return dict(H=H, W=W, vals=[vt[i * W:(i + 1) * W] for i in range(H)], dtype="float64", tv=[],
                 xs=[tok(x) for x in xs], ys=[tok(y) for y in ys], sx=0, sy=0, u=1.0,
-                metric="GREAT_CIRCLE", metric_model=None, max=mx)
+                metric="GREAT_CIRCLE", metric_model=None, max=mx, gc_cell=max(dx, dy), gc_cell_m=min(1.0, 111319.5 * min(dx, dy) * 1e-3))
 
 
 def layout_case(H, W, mask, sx=1, sy=1, metric="EUCLIDEAN", mx=None, u=1.0, ydesc=False, perm=0):
@@ -440,7 +504,15 @@ def oracle(c, real):
     if planar and not unbounded:
         m2 = max_sq_units(c["max"]) * Fraction(c["u"]) ** 2
     tol = 2e-6 if planar else 2e-5
-    small = planar and H <= 3 and W <= 3 and (c["sx"], c["sy"]) in SMALL_CELLS
+    # absolute slack (only matters at distance 0): a thousand-millionth of a cell, not of a coordinate unit
+    eps = 1e-9 * min(1.0, abs(c["u"])) if planar else 1e-9 * min(1.0, c.get("gc_cell_m", 1.0))
+    # re-scaled coordinates that are not exactly representable (x0 + i*step*u rounded to float64): the lattice is regular up to
+    # 1e-7 of a cell only, so a target that sits *on* the max_distance circle of the ideal lattice is inside or outside by
+    # rounding, and which of two nominally equidistant targets wins is decided by rounding as well.  The oracle stays exact on the
+    # coordinates as given; only the two clauses that presuppose the ideal lattice are restricted: "within max_distance" leaves a
+    # relative margin of 1e-6 around the circle, and the exhaustively enumerated small grids are the exactly representable ones.
+    inexact = bool(c.get("affine")) and not c["affine"].get("exact")
+    small = planar and H <= 3 and W <= 3 and (c["sx"], c["sy"]) in SMALL_CELLS and not inexact
     for r in range(H):
         for p in range(W):
             gp, ga, gd = P[r][p], A[r][p], D[r][p]
@@ -459,16 +531,16 @@ def oracle(c, real):
             if not nanp:
                 if not targets:
                     return "no-target", f"{where}: proximity={gp} on a raster without targets"
-                if gp < nearest * (1 - tol) - 1e-9:
+                if gp < nearest * (1 - tol) - eps:
                     return "underestimate", f"{where}: proximity={gp} < true nearest distance {nearest}"
-                if not unbounded and gp > mxv * (1 + tol) + 1e-9:
+                if not unbounded and gp > mxv * (1 + tol) + eps:
                     return "gt-max", f"{where}: proximity={gp} > max_distance={mxv}"
                 # the target allocation names: same value, at the reported distance, at the reported bearing
                 ok = False
                 for t, dt in zip(targets, dists):
                     if f32(vals[t[0]][t[1]]) != ga:
                         continue
-                    if abs(dt - gp) > tol * max(dt, gp) + 1e-9:
+                    if abs(dt - gp) > tol * max(dt, gp) + eps:
                         continue
                     b = compass(xs[p], ys[r], xs[t[1]], ys[t[0]])
                     if (b == 0) != (gd == 0) or abs(b - gd) > 2e-3:
@@ -482,7 +554,9 @@ def oracle(c, real):
                 kind = "single-target" if len(targets) == 1 else "small-grid"
                 if targets:
                     within = unbounded or n2 <= m2
-                    if within and (nanp or abs(gp - nearest) > tol * nearest + 1e-9):
+                    if inexact and not unbounded and abs(n2 - m2) <= m2 * Fraction(1, 10 ** 6):
+                        continue                    # on the circle up to coordinate rounding
+                    if within and (nanp or abs(gp - nearest) > tol * nearest + eps):
                         return kind, f"{where}: proximity={gp}, exact nearest distance {nearest} (within max_distance)"
                     if not within and not nanp:
                         return kind, f"{where}: proximity={gp} although the nearest target is at {nearest} > max_distance {mxv}"
@@ -502,12 +576,22 @@ def oracle(c, real):
 
 
 # ---------------------------------------------------------------- streams
+def cell_class(c):
+    u = abs(c["u"]) if c["metric_model"] else c.get("gc_cell", 1.0)
+    for lim, name in ((1e-5, "<=1e-5"), (1e-3, "<=1e-3"), (0.1, "<=0.1"), (4, "<=4"), (100, "<=100")):
+        if u <= lim:
+            return name
+    return ">100"
+
+
 def tags_of(c, stream):
     n = c["H"] * c["W"]
     nt = sum(1 for row in c["vals"] for t in row if t not in ("0", "nan", "inf", "-inf")) if not c["tv"] else len(c["tv"])
     return [f"stream:{stream}", f"metric:{c['metric']}", f"max:{c['max']['kind']}", f"dtype:{c['dtype']}",
             f"size:{'1-3' if max(c['H'], c['W']) <= 3 else '4-6' if max(c['H'], c['W']) <= 6 else '7-12'}",
             f"cells:{c['sx']}x{c['sy']}", f"targets:{'explicit' if c['tv'] else 'default'}", f"magnitude:{c.get('mag', 'small')}",
+            f"coords:{c['affine']['cls'] if c.get('affine') else 'unscaled' if c['metric_model'] else 'lonlat'}",
+            f"cell-size:{cell_class(c)}",
             f"density:{'0' if nt == 0 else '1' if nt == 1 else '<=10%' if nt <= 0.1 * n else '<=30%' if nt <= 0.3 * n else '>30%'}"]
 
 
@@ -527,6 +611,9 @@ def evaluate(r, stream, cases, results, use_model=True):
             fails.append((bad[0], f"[{stream}] {bad[1]}", c))
             continue
         if use_model and c["metric_model"]:
+            if c.get("affine") and not c["affine"].get("exact"):
+                r.tag("model-skipped:inexact-coordinates(oracle only)")
+                continue
             if threshold_tie(c):
                 r.tag("model-skipped:threshold-tie")
                 continue
@@ -621,10 +708,15 @@ def run(r, scale=1):
     t_phase = time.time()
     r.rule = ("rasters 1x1..12x12 with unique target values (12% repeated; 23% with ids 2^24..2^53 one apart or subnormal/huge float64 cells), densities 0..60%, default and explicit "
               "target_values (incl. absent values / NaN, int or float lists), NaN/inf cells, 7 dtypes, coordinate unit in {1,1/2,2,1/4}, steps "
-              "{1,2,3} per axis, ascending/descending, EUCLIDEAN/MANHATTAN/unknown metric strings, max_distance in "
+              "{1,2,3} per axis, ascending/descending; 35% of the rasters on affinely re-scaled coordinates x0 + i*step*u (projected: "
+              "eastings 1.7e5..8.3e5 / northings 1e6..9.9e6 with cells 0.5 m..10 km; geographic: degrees with cells 1e-6..1e-2; far: "
+              "offsets up to +-1e7 with cells 1e-2..1e4; fine: cells 1e-6..1e-3 near the origin; dyadic: cell 2^-20..2^13 at offsets up to "
+              "1e7, exactly representable -- the only re-scaled class the model is compared on, the others are judged by the exact oracle "
+              "on the float coordinates as given; 30% of them single-target rasters), EUCLIDEAN/MANHATTAN/unknown metric strings, max_distance in "
               "{inf, None, k, k+1/2, sqrt(k+1/2), sqrt(k+1/4)}; all three public functions per case; stream jit = "
               "numba-compiled code, stream interp = same source under NUMBA_DISABLE_JIT; small = every layout on "
-              "H,W<=3; gc = GREAT_CIRCLE (oracle only); non-trivial = distinct case")
+              "H,W<=3; gc = GREAT_CIRCLE (oracle only; cells 10 degrees .. 1e-6 degrees, base points anywhere on the globe, max_distance a few "
+              "cells); non-trivial = distinct case")
     facts_check(r)
     # corpus first
     corpus = [b["case"] for b in r.corpus() if "case" in b]
